@@ -576,7 +576,8 @@ MANIFEST = dict(
          "read back by from_archive with the same title (Unicode format), the same ORDERED entries and dirty = false; every message offset is "
          "a multiple of 4, holds exactly its cell and carries exactly its key as label; the reader depends only on the observable content of "
          "the archive, so the round trip on BYTES (C06_round_trip: TextFormat.serialize then TextFormat.from_bytes, both arithmetic profiles; "
-         "C06_layout_bytes: the layout read off the parsed image) follows from the bin-archive round trip C01, whose hypotheses wf_archive / fits32 "
+         "C06_layout_bytes: the layout read off the parsed image; C06_layout_conforms: the layout stated on the file through the independent "
+         "format relation conforms) follows from the bin-archive round trip C01, whose hypotheses wf_archive / fits32 "
          "are proved for every archive the text writer builds when the image is smaller than 4 GiB (Proofs/TextBinBridge.v; no premise, no axiom). "
          "Link to C07 (C06_history_round_trip): after ANY history of set_message (with its escape handling) / delete_message / set_title / lookups "
          "from TextArchive::new, serialize -> from_bytes returns the title and exactly get_entries (Unicode format: keys/title NUL-free ASCII, "
@@ -585,7 +586,13 @@ MANIFEST = dict(
          "input and model, image examined by an independent Python reference reader, histories of API calls pushed through the real library, the "
          "C07 model composed with the C06 model, and Python's own ordered dict (kind txth), the two game files, from_archive on API-built archives, "
          "and an A-codec sweep of every scalar value / lossless Shift-JIS code on the real library.",
-    note=TB + "All C06 theorems are premise-free (hypotheses: distinct keys, NUL-free encoded text, valid UTF-16, bytes < 256, image < 2^32). "
+    note=TB + "Domain: the theorems quantify over ENCODED strings; read on Rust Strings they speak about strings s with decode(encode s) = s "
+              "(lossless; checked per string by the harness). For keys, the title and legacy messages this EXCLUDES U+00A5, U+203E and U+2212, "
+              "which encoding_rs' Shift-JIS encoder accepts (5C, 7E, 81 7C) but which come back as U+005C, U+007E, U+FF0D (the round trip holds for "
+              "them only up to decode o encode); UTF-16 messages have no exclusion. Big-endian archives: the byte-exact comparison of the label "
+              "table is restricted to keys whose Shift-JIS byte order equals their String order (see notes; the order of BE label names is "
+              "handled by a separate work item). "
+              "All C06 theorems are premise-free (hypotheses: distinct keys, NUL-free encoded text, valid UTF-16, bytes < 256, image < 2^32). "
               "Modelled, not verified: encoding_rs Shift-JIS (A-codec, checked by the harness per case and by the sweep; the history theorem uses it only on "
               "ASCII, where it is the identity), IndexMap, Vec (A-std); encode_utf16 / the UTF-16 decoder are modelled AND proved inverse, and tied to the library "
               "by the txth stream and the sweep. "
